@@ -271,6 +271,10 @@ class HierDictDocument(DictDocument):
 
     def _doc_to_object(self, ctx, cls, doc, validator=None):
         if doc is None:
+            if issubclass(cls, ComplexModelBase) and not issubclass(cls, Array):
+                # no arguments at all: every argument is absent
+                return [None] * len(cls.get_flat_type_info(cls))
+
             return []
 
         if issubclass(cls, Any):
